@@ -8,7 +8,7 @@ for dir in seeded/*${1:-}*/; do
   checks=$(python3 -c "import json;print(' '.join(r['check'] for r in json.load(open('$dir/meta.json'))['ran']))")
   W=$(mktemp -d /tmp/vfy-XXXXXX); rmdir "$W"
   git -C /repo worktree add -q --detach "$W" HEAD
-  if ! git -C "$W" apply "$dir/patch.diff"; then echo "$name: PATCH DOES NOT APPLY"; git -C /repo worktree remove --force "$W"; continue; fi
+  if ! git -C "$W" apply "$(pwd)/${dir}patch.diff"; then echo "$name: PATCH DOES NOT APPLY"; git -C /repo worktree remove --force "$W"; continue; fi
   res=""
   for id in $checks; do
     o=$(VERIF_REPO="$W" VERIF_NO_EVIDENCE=1 ./check "$id" --tier quick 2>&1); rc=$?
